@@ -785,6 +785,17 @@ def m_chain(it, a, ty, callee):
     return LazyIter(xs + ys)
 
 
+def m_zip(it, a, ty, callee):
+    """Iterator::zip: eager on both sides (the closures of the adaptor stages are pure in the code under test)"""
+    from ..values import Tup
+    xs = drain(it, as_lazy(a[0]))
+    second = a[1]
+    if not isinstance(second, IterModel):
+        second = m_into_iter(it, [second], None, callee)
+    ys = drain(it, as_lazy(second))
+    return LazyIter([Tup([x, y]) for x, y in zip(xs, ys)])
+
+
 def m_vec_truncate(it, a, ty, callee):
     p, n = a
     v = it.load(p)
@@ -886,6 +897,7 @@ def install(it):
         A(r'<.* as std::iter::Iterator>::%s(::<.*>)?' % k, m_stage(k))
     A(r'<.* as std::iter::Iterator>::rev', m_rev)
     A(r'<.* as std::iter::Iterator>::chain::<.*>', m_chain)
+    A(r'<.* as std::iter::Iterator>::zip::<.*>', m_zip)
     A(r'<.* as std::iter::Iterator>::peekable', m_peekable)
     A(r'std::iter::Peekable::<.*>::peek', m_peek)
     A(r'smallvec::SmallVec::<.*>::(new|with_capacity)', lambda it, a, ty, c: Seq((), 'vec'))
